@@ -31,7 +31,7 @@ def outputs(thorough):
             trees.append(M1.Tree(ndim, 3, [(1, (0,) * ndim), (2, (1,) * ndim)]))
         for ti, tree in enumerate(trees):
             for ncpu in (1, 2):
-                for hyd in (["rvp", "mhd", "oddnames"] if (thorough or ndim == 3) else ["rvp", "oddnames"]):
+                for hyd in (["rvp", "mhd", "oddnames", "rvp-rev", "mhd-rev"] if (thorough or ndim == 3) else ["rvp", "oddnames", "rvp-rev"]):
                     outs[f"{ndim}d-t{ti}-{ncpu}cpu-{hyd}"] = (ndim, ti, ncpu, hyd)
     return outs
 
@@ -55,8 +55,9 @@ def build(label):
             if not bad:
                 keep.append((n, t))
         out.hydro = keep
-    out.part = M1.make_part(M1.part_descriptor(ndim), [2, 3][:ncpu])
-    out.sink = M1.make_sink(ndim, 2)
+    rev = hyd.endswith("-rev")
+    out.part = M1.make_part(M1.part_descriptor(ndim, reverse=rev), [2, 3][:ncpu])
+    out.sink = M1.make_sink(ndim, 2, order="rot" if rev else "xyz")
     return out
 
 
